@@ -338,9 +338,8 @@ def _pool_run(spec):
     import logging
     logging.disable(logging.WARNING)        # malt's "could not transform ... will run it as-is" chatter
     try:
-        if 'witness' in spec:
-            return run_witness(spec['witness'])
-        return run_history(spec)
+        res = run_witness(spec['witness']) if 'witness' in spec else run_history(spec)
+        return json.loads(json.dumps(res, default=str))      # nothing from the pool's own modules crosses the pipe
     except BaseException:    # noqa
         return {'spec': spec, 'crash': traceback.format_exc()}
 
